@@ -5,10 +5,12 @@
     on the intercept) and 1/2 (deviance + alpha |w|^2).  [bin_ok], [multi_ok], [glm_ok]
     (C12/Checker.v) are the decidable checkers every run evaluates on the parameters returned by
     the implementation; [tauR tol] = tol (1 + 2^-10).  [rmat], [rvec], [f64_R] give the exact real
-    values of the float data. *)
+    values of the float data.  [mat_l1dist k W' W], [vec_l1dist k b' b], [l1norm (vsub w' w)] are the
+    l1 distances of parameters (C12/Convex.v, C12/Proofs.v); [glm_convex_family] lists the convex
+    Tweedie power / link combinations. *)
 From Coq Require Import List NArith QArith Reals Floats Permutation.
 From Coquelicot Require Import Coquelicot.
-From LinfaVerif Require Import Common.Num Common.QF C12.Model C12.Checker C12.Proofs.
+From LinfaVerif Require Import Common.Num Common.QF C12.Model C12.Checker C12.Proofs C12.Convex.
 Import ListNotations.
 Local Open Scope R_scope.
 
@@ -211,3 +213,85 @@ Proof. intros X X' y y' H. split; intros; apply glin_obj_perm; exact H. Qed.
 Theorem multi_objective_sample_order_invariant : forall k alpha (X X' : list (list R)) (y y' : list nat) W b,
   Permutation (combine X y) (combine X' y') -> multi_loss k alpha X y W b = multi_loss k alpha X' y' W b.
 Proof. intros. apply multi_loss_perm. assumption. Qed.
+
+(** ** T2 for the multinomial objective: convexity of log-sum-exp *)
+
+(** first-order inequality: log-sum-exp lies above its tangent planes; its gradient is the softmax *)
+Theorem log_sum_exp_first_order : forall s s' : list R, s <> [] -> length s' = length s ->
+  ln (sumexp s) + Rsum (map (fun c => softmax s c * (nth c s' 0 - nth c s 0)) (seq 0 (length s))) <= ln (sumexp s').
+Proof. exact lse_first_order_list. Qed.
+
+(** log-sum-exp is convex along every segment (any finite index set) *)
+Theorem log_sum_exp_convex : forall (A : Type) (g g' : A -> R) (l : list A) (t : R), l <> [] -> 0 <= t <= 1 ->
+  ln (Rsum (map (fun c => exp (t * g c + (1 - t) * g' c)) l))
+  <= t * ln (Rsum (map (fun c => exp (g c)) l)) + (1 - t) * ln (Rsum (map (fun c => exp (g' c)) l)).
+Proof. exact @lse_convex. Qed.
+
+(** stationarity of the multinomial objective up to tau (every partial derivative at most tau in
+    absolute value) implies optimality up to tau |theta' - theta|_1, for every competitor (W', b') of the same shape *)
+Theorem multi_logistic_convex_optimal : forall k alpha (X : list (list R)) (y : list nat) (W : list (list R)) (b : list R)
+    (W' : list (list R)) (b' : list R) tau,
+  (0 < k)%nat -> 0 <= alpha -> 0 <= tau -> length W' = length W ->
+  (forall row, In row W -> length row = k) -> (forall row, In row W' -> length row = k) ->
+  (forall x, In x X -> length x = length W) ->
+  (forall j c, (j < length W)%nat -> (c < k)%nat -> Rabs (multi_grad_W k alpha X y W b j c) <= tau) ->
+  (forall c, (c < k)%nat -> Rabs (multi_grad_b k X y W b c) <= tau) ->
+  multi_loss k alpha X y W b - tau * (mat_l1dist k W' W + vec_l1dist k b' b) <= multi_loss k alpha X y W' b'.
+Proof. exact multi_convex_optimal. Qed.
+
+(** ** T2 for the Tweedie objectives that are convex in the linear predictor: identity link with
+    p = 0 (Normal), log link with p = 1 (Poisson), 1 < p < 2 (compound Poisson-Gamma), p = 2 (Gamma).
+    Other power / link combinations are not convex in general (see [tweedie_normal_log_not_convex]). *)
+
+(** the per-sample term lies above its tangents in the linear predictor z *)
+Theorem tweedie_convex_in_linear_predictor : forall (p : Q) l dev (yi z z' : R),
+  glm_convex_family p l dev ->
+  (Qeq_bool p 0 = true \/ (Q2R p = 2 /\ 0 < yi) \/ (Q2R p <> 2 /\ 0 <= yi)) ->
+  glm_ell dev l yi z + glm_phi (ddev_of p) l yi z * (z' - z) <= glm_ell dev l yi z'.
+Proof. intros p l dev yi z z' Hf Hy. exact (glm_family_tangent p l dev yi Hf Hy z z'). Qed.
+
+Theorem tweedie_convex_optimal : forall (p : Q) l dev alpha (X : list (list R)) (y w : list R) (b : R) (w' : list R) (b' tau : R),
+  glm_convex_family p l dev -> glm_targets_ok p y ->
+  0 <= alpha -> 0 <= tau -> length w' = length w -> (forall x, In x X -> length x = length w) ->
+  (forall j, (j < length w)%nat -> Rabs (glm_grad_w (ddev_of p) l alpha X y w b j) <= tau) ->
+  Rabs (glm_grad_b (ddev_of p) l X y w b) <= tau ->
+  glm_loss dev l alpha X y w b - tau * (l1norm (vsub w' w) + Rabs (b' - b)) <= glm_loss dev l alpha X y w' b'.
+Proof. exact glm_convex_optimal_lemma. Qed.
+
+(** the Normal deviance with the log link is not convex in the linear predictor (target 4, tangent at 0, point -2) *)
+Theorem tweedie_normal_log_not_convex :
+  ~ (forall z z', glm_ell dev_normal Log 4 z + glm_phi dev_deriv_normal Log 4 z * (z' - z) <= glm_ell dev_normal Log 4 z').
+Proof. exact normal_log_not_convex. Qed.
+
+(** ** The per-run certificates as global near-optimality: when the checker accepts the returned
+    parameters of a convex objective, no competitor has a smaller value of the documented objective
+    by more than tol (1 + 2^-10) times its l1 distance (without a fitted intercept the competitor's
+    intercept is 0 as well) *)
+Theorem binary_fit_near_optimal : forall alpha icpt X t w b tol,
+  bin_ok alpha icpt X t w b tol = true -> 0 <= f64_R alpha ->
+  (forall x, In x (rmat X) -> length x = length (rvec w)) ->
+  forall w' b', length w' = length (rvec w) -> (icpt = false -> b' = 0) ->
+  bin_loss (f64_R alpha) (rmat X) (map sign_R t) (rvec w) (f64_R b)
+  - tauR tol * (l1norm (vsub w' (rvec w)) + Rabs (b' - f64_R b))
+  <= bin_loss (f64_R alpha) (rmat X) (map sign_R t) w' b'.
+Proof. exact binary_fit_near_optimal_lemma. Qed.
+
+Theorem multi_fit_near_optimal : forall k alpha icpt X y W b tol,
+  multi_ok k alpha icpt X y W b tol = true -> (0 < k)%nat -> 0 <= f64_R alpha ->
+  (forall x, In x (rmat X) -> length x = length (rmat W)) ->
+  forall W' b', length W' = length (rmat W) -> (forall row, In row W' -> length row = k) ->
+  (icpt = false -> forall c, nth c b' 0 = 0) ->
+  multi_loss k (f64_R alpha) (rmat X) y (rmat W) (rvec b)
+  - tauR tol * (mat_l1dist k W' (rmat W) + vec_l1dist k b' (rvec b))
+  <= multi_loss k (f64_R alpha) (rmat X) y W' b'.
+Proof. exact multi_fit_near_optimal_lemma. Qed.
+
+Theorem glm_fit_near_optimal : forall p l dev alpha icpt X y w b tol,
+  glm_ok p l alpha icpt X y w b tol = true ->
+  glm_convex_family (f64_Q p) l dev -> glm_targets_ok (f64_Q p) (rvec y) -> 0 <= f64_R alpha ->
+  (forall x, In x (rmat X) -> length x = length (rvec w)) ->
+  forall w' b', length w' = length (rvec w) -> (icpt = false -> b' = 0) ->
+  glm_loss dev l (f64_R alpha) (rmat X) (rvec y) (rvec w) (f64_R b)
+  - tauR tol * (l1norm (vsub w' (rvec w)) + Rabs (b' - f64_R b))
+  <= glm_loss dev l (f64_R alpha) (rmat X) (rvec y) w' b'.
+Proof. exact glm_fit_near_optimal_lemma. Qed.
